@@ -262,7 +262,7 @@ PROPS = {
     "C19": dict(
         module="OrbitModel.Properties.C19",
         theorems=["Orbit.C19.never_regresses", "Orbit.C19.progress_le_max", "Orbit.C19.at_rest_equals_len",
-                  "Orbit.C19.pinned_tree_max_regresses", "Orbit.C19.tied_to_go_text", "Orbit.C19.status_raised_with_the_append_tied_to_go_text"],
+                  "Orbit.C19.pinned_tree_max_regresses", "Orbit.C19.tied_to_go_text", "Orbit.C19.status_raised_with_the_append_tied_to_go_text", "Orbit.C19.foreign_heads_are_not_counted", "Orbit.C19.foreign_head_was_counted_before_the_fix"],
         families=[("status", 80, 2500, 8), ("kv", 40, 1000, 14), ("routes", 40, 1000, 12)],
         corr_fields={"status", "len"},
         nontrivial=nt_any3,
